@@ -59,7 +59,22 @@ class WorldAssertion(AssertionError):
     """subclass of the failureException -> counts as a *failure*"""
 
 
+class UnhashableError(Exception):
+    """an exception class that defines equality and hence has no hash (what @dataclass on an exception class produces)"""
+
+    def __init__(self, tag):
+        Exception.__init__(self, 'unhashable ' + tag)
+        self.tag = tag
+
+    def __eq__(self, other):
+        return isinstance(other, UnhashableError) and other.tag == self.tag
+
+    __hash__ = None
+
+
 def make_exc(name, tag):
+    if name == 'Unhashable':
+        return UnhashableError(tag)
     if name == 'ValueError':
         return ValueError('boom ' + tag)
     if name == 'KeyError':
